@@ -123,6 +123,23 @@ impl Sched {
     pub fn tape(&self) -> Tape {
         Tape::new(self.tape.clone())
     }
+    /// Largest virtual delay (ms) this schedule applies to a frame, given the cap.
+    pub fn max_delay_ms(&self, cap_ms: u64) -> u64 {
+        self.delays_ab
+            .iter()
+            .chain(self.delays_ba.iter())
+            .filter(|&&c| c >= 230)
+            .map(|&c| [1u64, 10, 100, 1000, 10_000][(c as usize - 230) % 5].min(cap_ms))
+            .max()
+            .unwrap_or(0)
+    }
+
+    /// Virtual deadline (s) for a workload that needs at most `frames` frames: every frame may be
+    /// delayed by the largest delay of the schedule, plus slack for pauses.
+    pub fn deadline_s(&self, frames: u64, cap_ms: u64) -> u64 {
+        3_000 + frames * self.max_delay_ms(cap_ms) / 1000 + frames / 10
+    }
+
     pub fn perturbed(&self) -> bool {
         self.defer > 0 || self.delays_ab.iter().chain(self.delays_ba.iter()).any(|&d| d >= 200)
     }
